@@ -125,6 +125,9 @@ func apply(w *world, thread int, o Op) string {
 		}
 		sort.Strings(names)
 		return "ok:[" + strings.Join(names, " ") + "]"
+	case "catraw":
+		_, err := hackpadfs.ReadFile(fs, o.P)
+		return fmt.Sprintf("%T %v", err, err)
 	case "cat":
 		b, err := hackpadfs.ReadFile(fs, o.P)
 		if err != nil {
@@ -747,6 +750,25 @@ func TestReplayAll(t *testing.T) {
 						continue
 					}
 					return checkSchedule(c, nil)
+				}
+				return "", ""
+			})
+		})
+	}
+	for _, leg := range []string{"observers", "observers-canon"} {
+		leg := leg
+		t.Run(leg, func(t *testing.T) {
+			vf.Replay(t, leg, func(steps []json.RawMessage) (string, string) {
+				for _, raw := range steps {
+					var c Case
+					if err := json.Unmarshal(raw, &c); err != nil || len(c.Program.Threads) == 0 {
+						continue
+					}
+					if sig, msg := checkSchedule(c, nil); sig != "" {
+						kind := strings.Fields(strings.SplitN(sig, ":", 2)[0])[1]
+						return "C15 " + kind + " " + obsClass(c.Program), msg
+					}
+					return "", ""
 				}
 				return "", ""
 			})
